@@ -2,7 +2,12 @@
 
 from typing import Any, Callable, Mapping, Optional, Sequence, Type, cast
 
-from ..exc import InvalidOperationError, ResolverError
+from ..exc import (
+    ExecutionError,
+    InvalidOperationError,
+    ResolverError,
+    VariablesCoercionError,
+)
 from ..lang import ast as _ast
 from ..schema import Schema
 from ..utilities import coerce_variable_values
@@ -126,11 +131,32 @@ def execute(
         instrumentation.on_execution_end()
         return runtime.ensure_wrapped(GraphQLResult(data=None, errors=[err]))
 
-    return runtime.ensure_wrapped(
-        runtime.map_value(
-            runtime.unwrap_value(
-                exe_fn(root_type, initial_value, [], root_fields)
+    def _on_abort(err):
+        # An `ExecutionError` (or `VariablesCoercionError`) raised while
+        # executing, e.g. by a resolver, aborts the whole request and is
+        # reported as a response: the execution stage ends like for any other
+        # outcome, whatever the runtime.
+        cast(Instrumentation, instrumentation).on_execution_end()
+        return GraphQLResult(
+            data=None,
+            errors=(
+                err.errors
+                if isinstance(err, VariablesCoercionError)
+                else [err]
             ),
-            _on_finish,
         )
-    )
+
+    aborting = (ExecutionError, VariablesCoercionError)
+
+    try:
+        return runtime.ensure_wrapped(
+            runtime.map_value(
+                runtime.unwrap_value(
+                    exe_fn(root_type, initial_value, [], root_fields)
+                ),
+                _on_finish,
+                else_=(aborting, _on_abort),  # type: ignore
+            )
+        )
+    except aborting as err:
+        return runtime.ensure_wrapped(_on_abort(err))
